@@ -93,6 +93,9 @@ def call(
             value = parameters[name]
             if not isinstance(value, numpoly.ndpoly):
                 value = numpy.asarray(value)
+                # narrow numeric types would overflow in the powers before they
+                # meet the coefficients: compute in the common type
+                value = value.astype(numpy.result_type(value, poly.dtype))
             term = term * value ** int(power)
         if isinstance(term, numpoly.ndpoly):
             tmp = numpoly.outer(coefficient, term)
